@@ -103,6 +103,18 @@ fn bad_filter_png(rng: &mut Rng, interlaced: bool) -> Vec<u8> {
     simple_png(&s, &rows, &filters, 0, 1, rng).0
 }
 
+/// every further update of a dead decoder must be an error: with data, with one byte, with an empty slice
+fn poll_dead(o: &mut Out, d: &mut StreamingDecoder, name: &str, when: &str) {
+    let mut img = vec![];
+    for slice in [&[][..], &[0u8][..], &[0x89u8, b'P', b'N', b'G', 13, 10, 26, 10][..], &[][..]] {
+        let r = guarded(|| d.update(slice, &mut img).map(|(n, e)| format!("Ok({}, {:?})", n, e)).map_err(|e| err_class(&e)));
+        if !matches!(r, Ok(Err(_))) {
+            o.violation(viol("update-accepted-by-a-dead-decoder", vec![("file", jstr(name)), ("when", jstr(when)), ("slice_len", slice.len().to_string()), ("result", jstr(&format!("{:?}", r)))]));
+            return;
+        }
+    }
+}
+
 fn l0_trace(dec: &mut StreamingDecoder, bytes: &[u8]) -> String {
     let mut evs = vec![];
     let mut pending = vec![];
@@ -194,6 +206,9 @@ pub fn run(a: &Args) {
             }
         }
         o.direct_checks += 1;
+        if ended {
+            poll_dead(&mut o, &mut d, &b.name, "after ImageEnd");
+        }
         if ended && !buf.is_empty() {
             let r = guarded(|| d.update(buf, &mut img).map(|(n, e)| format!("Ok({}, {:?})", n, e)).map_err(|e| err_class(&e)));
             if !matches!(r, Ok(Err(_))) {
@@ -259,6 +274,16 @@ pub fn run(a: &Args) {
             streams.push((format!("3x2-{}", label), assemble(&[ihdr(3, 2, 8, 0, 0), Chunk::new(b"IDAT", z), Chunk::new(b"IEND", vec![])])));
         }
         streams.push(("3x2-good".into(), assemble(&[ihdr(3, 2, 8, 0, 0), Chunk::new(b"IDAT", good), Chunk::new(b"IEND", vec![])])));
+    }
+    // a decoder that has reported a fatal error or the end of the image refuses every further update - whatever slice it is offered, an empty one included
+    for (na, sa) in &streams {
+        let mut d = StreamingDecoder::new();
+        let t = l0_trace(&mut d, sa);
+        o.direct_checks += 1;
+        if t.contains("END=ERR:Format") || t.contains("END=IEND") {
+            poll_dead(&mut o, &mut d, na, if t.contains("END=IEND") { "after ImageEnd" } else { "after a fatal format error" });
+            o.count("dead-decoder-polled");
+        }
     }
     for (na, sa) in &streams {
         for (nb, sb) in &streams {
